@@ -43,6 +43,10 @@ type g2lTarget struct {
 	callSubst      map[string]string // Go callee text -> Lean function (arguments kept)
 	dropCalls      []string          // callee prefixes of statements without effect on the result (logging)
 	intLen         bool
+	mapVars        []string // identifiers that hold maps (also read off the syntax): `m[k]` reads with GoLite.Map.get, `range m` iterates over the pairs
+	ownedVars      []string // identifiers declared to hold memory only this function sees (e.g. pointers into the
+	// fresh result of a library call that is neither returned nor stored): in-place updates through them are
+	// allowed; the claim belongs to the trusted base of the theorem that uses the translation
 	// part of a function instead of its whole body:
 	closureOf string   // translate the body of the function literal passed to this callee (e.g. "repo.ListSignatures")
 	after     string   // translate the top-level statements AFTER the statement that calls this callee
@@ -138,6 +142,15 @@ func wrapVerbArg(format string, args []ast.Expr) ast.Expr {
 	return nil
 }
 
+func (g *g2l) isMapVar(name string) bool {
+	for _, m := range g.t.mapVars {
+		if m == name {
+			return true
+		}
+	}
+	return false
+}
+
 func isNil(e ast.Expr) bool {
 	id, ok := e.(*ast.Ident)
 	return ok && id.Name == "nil"
@@ -203,6 +216,9 @@ func (g *g2l) expr(e ast.Expr) string {
 	case *ast.BinaryExpr:
 		return g.binary(x)
 	case *ast.IndexExpr:
+		if id, ok := x.X.(*ast.Ident); ok && g.isMapVar(id.Name) {
+			return "(GoLite.Map.get " + g.expr(x.X) + " " + g.expr(x.Index) + ")"
+		}
 		return "(GoLite.idx " + g.expr(x.X) + " " + g.expr(x.Index) + ")"
 	case *ast.CallExpr:
 		return g.call(x)
@@ -328,6 +344,11 @@ func (g *g2l) call(x *ast.CallExpr) string {
 		}
 		return "(GoLite.errorf \"\")"
 	case "make":
+		// make(map[K]V) / make([]T, ..): the empty association list / list, with its type
+		switch x.Args[0].(type) {
+		case *ast.MapType, *ast.ArrayType:
+			return "([] : " + strings.Trim(g2lType(g, x.Args[0]), "()") + ")"
+		}
 		return "[]"
 	case "append":
 		if x.Ellipsis != token.NoPos && len(x.Args) == 2 {
@@ -537,6 +558,13 @@ func (g *g2l) inert(list []ast.Stmt, inLoop bool) bool {
 }
 
 func (g *g2l) block(o *g2lOut, ind int, list []ast.Stmt) {
+	// Go scoping: what a block declares is gone at its end (a later `x, err := f()` outside
+	// declares a new err, in Lean as in Go)
+	outer := make(map[string]bool, len(g.declared))
+	for k, v := range g.declared {
+		outer[k] = v
+	}
+	defer func() { g.declared = outer }()
 	n := 0
 	for _, s := range list {
 		if g.inert([]ast.Stmt{s}, false) {
@@ -922,6 +950,16 @@ func (g *g2l) rangeStmt(o *g2lOut, ind int, x *ast.RangeStmt) {
 	k, v := name(x.Key), name(x.Value)
 	coll := g.expr(x.X)
 	isMap := g.t.subst["range:"+exprText(x.X)] == "map"
+	if id, ok := x.X.(*ast.Ident); ok && g.isMapVar(id.Name) {
+		isMap = true
+	}
+	// a range variable that the body assigns to (`x.F = v`, `x = v`): Lean's loop variables are
+	// immutable, so the loop binds `<name>_it` and the body starts with a mutable copy
+	rebind := ""
+	if v != "_" && assignsTo(x.Body, exprText(x.Value)) {
+		rebind = v
+		v = g2lIdent(exprText(x.Value) + "_it")
+	}
 	switch {
 	case isMap:
 		o.line(ind, fmt.Sprintf("for (%s, %s) in %s do", k, v, coll))
@@ -930,7 +968,49 @@ func (g *g2l) rangeStmt(o *g2lOut, ind int, x *ast.RangeStmt) {
 	default:
 		o.line(ind, fmt.Sprintf("for (%s, %s) in GoLite.enum %s do", k, v, coll))
 	}
+	if rebind != "" {
+		o.line(ind+1, "let mut "+rebind+" := "+v)
+	}
 	g.block(o, ind+1, x.Body.List)
+}
+
+// assignsTo reports whether the block assigns to the variable `name` or to one of its fields.
+func assignsTo(body *ast.BlockStmt, name string) bool {
+	found := false
+	root := func(e ast.Expr) string {
+		for {
+			switch x := e.(type) {
+			case *ast.SelectorExpr:
+				e = x.X
+			case *ast.IndexExpr:
+				e = x.X
+			case *ast.StarExpr:
+				e = x.X
+			case *ast.Ident:
+				return x.Name
+			default:
+				return ""
+			}
+		}
+	}
+	ast.Inspect(body, func(n ast.Node) bool {
+		switch x := n.(type) {
+		case *ast.AssignStmt:
+			if x.Tok != token.DEFINE {
+				for _, l := range x.Lhs {
+					if root(l) == name {
+						found = true
+					}
+				}
+			}
+		case *ast.IncDecStmt:
+			if root(x.X) == name {
+				found = true
+			}
+		}
+		return true
+	})
+	return found
 }
 
 func (g *g2l) forStmt(o *g2lOut, ind int, x *ast.ForStmt) {
@@ -1030,6 +1110,52 @@ func g2lTranslate(t *g2lTarget) string {
 	}
 	for _, v := range t.optVars {
 		g.opt[v] = true
+	}
+	for _, v := range t.ownedVars {
+		g.owned[v] = true
+	}
+	// identifiers that hold maps are read off the syntax: parameters of map type, `x := make(map..)`,
+	// `x := map[..]..{..}`, `var x map[..]..` (mapVars of the target adds what cannot be seen)
+	if g2lParams := g2lParamList(f, t); g2lParams != nil {
+		for _, p := range g2lParams.List {
+			if _, ok := p.Type.(*ast.MapType); ok {
+				for _, n := range p.Names {
+					t.mapVars = append(t.mapVars, n.Name)
+				}
+			}
+		}
+	}
+	if fdm := findFunc(f, t.recv, t.fn); fdm != nil && fdm.Body != nil {
+		ast.Inspect(fdm.Body, func(n ast.Node) bool {
+			switch x := n.(type) {
+			case *ast.AssignStmt:
+				if x.Tok == token.DEFINE && len(x.Lhs) == len(x.Rhs) {
+					for i, r := range x.Rhs {
+						id, ok := x.Lhs[i].(*ast.Ident)
+						if !ok {
+							continue
+						}
+						if c, ok := r.(*ast.CallExpr); ok && callName(c) == "make" && len(c.Args) > 0 {
+							if _, ok := c.Args[0].(*ast.MapType); ok {
+								t.mapVars = append(t.mapVars, id.Name)
+							}
+						}
+						if cl, ok := r.(*ast.CompositeLit); ok {
+							if _, ok := cl.Type.(*ast.MapType); ok {
+								t.mapVars = append(t.mapVars, id.Name)
+							}
+						}
+					}
+				}
+			case *ast.ValueSpec:
+				if _, ok := x.Type.(*ast.MapType); ok {
+					for _, n := range x.Names {
+						t.mapVars = append(t.mapVars, n.Name)
+					}
+				}
+			}
+			return true
+		})
 	}
 	// locals that only hold a logger: calls on them are dropped like the calls that made them
 	g.drop = append([]string{}, t.dropCalls...)
@@ -1183,4 +1309,13 @@ func g2lDecls(file string, names []string) string {
 		fmt.Fprintf(&b, "/-- `%s` (%s) -/\ndef %s : %s := %s\n\n", name, file, g2lIdent(name), ty, g.expr(v))
 	}
 	return b.String()
+}
+
+// g2lParamList: the parameter list of the target's function declaration (nil if it has none)
+func g2lParamList(f *ast.File, t *g2lTarget) *ast.FieldList {
+	fd := findFunc(f, t.recv, t.fn)
+	if fd == nil {
+		return nil
+	}
+	return fd.Type.Params
 }
